@@ -97,6 +97,29 @@ PROPS = {
                         "by the theorems, which quantify over all type ids, but not by the correspondence run)"],
         "timeout": 3600,
     },
+    "C20": {
+        "property_module": "AutosarVerif.Properties.C20",
+        "modules": ["AutosarVerif.Properties.C20"],
+        "closure": ["AutosarVerif.Properties.C20", "AutosarVerif.Lemmas.CData"],
+        "scenario": "c20",
+        "rule": "texts: every string up to length 4 (thorough: 5) over the alphabet of the numeric lexical forms, boundary values of every "
+                "integer width in every radix form with sign/prefix variants, special float texts (INF, NaN, subnormal and overflow "
+                "boundaries, halfway cases), random decimal/scientific texts up to 40 digits and random u64 in every radix; each text "
+                "through parse_integer for 12 integer types, parse_float, parse_bool and (where XML-safe) through strict loading of a "
+                "FLOAT and an UNSIGNED-INTEGER element. Round trips through the real serializer and loader: u64 (bit lengths, powers of "
+                "ten, random), f64 (every exponent with extreme mantissas, subnormals, infinities, NaN, -0, random bits; the model parses "
+                "the text std printed with exact arithmetic, the oracle demands bit equality), strings built from every escapable "
+                "character, multi-byte characters and entity-like fragments, and texts with character references / malformed "
+                "entities. Non-trivial = distinct request line (the parse_bool probes on non-boolean texts are not counted).",
+        "trusted_base": ["hand model of chardata.rs and of the std functions it calls (from_str_radix, u64::from_str/to_string, "
+                         "str::parse::<f64>, u64 as f64), tied by the correspondence run",
+                         "f64::to_string is not modelled: its output is checked per value (printed text parses back to the same bits "
+                         "under the model's exact arithmetic)"],
+        "assumptions": ["std's decimal-to-binary64 conversion is correctly rounded (documented by std; compared with the model's exact "
+                        "round-to-nearest-even on every float text of the run)",
+                        "NaN payloads are not compared (any NaN equals any NaN)"],
+        "timeout": 3600,
+    },
     "C19": {
         "property_module": "AutosarVerif.Properties.C19",
         "modules": ["AutosarVerif.Properties.C19"],
